@@ -229,9 +229,11 @@ Lemma u8_str_sound_aux : forall l,
 Proof.
   induction l as [|a l [IH1 IH2]].
   - split; [reflexivity|]. intros c. cbn [u8_str].
+    destruct (is_low c); [reflexivity|].
     destruct (negb (is_high c)); [|reflexivity].
     apply sound_app; [apply u8_code_sound|reflexivity].
   - split; [apply IH2|]. intros c. cbn [u8_str]. fold (u8_str (a :: l)).
+    destruct (is_low c); [reflexivity|].
     destruct (negb (is_high c)).
     + apply sound_app; [apply u8_code_sound|apply IH2].
     + destruct (is_low a); [|reflexivity].
@@ -243,10 +245,29 @@ Proof. intros. apply u8_str_sound_aux. Qed.
 
 Lemma u8_at_sound : forall c r, forallb (item_sound kbuf_utf8) (fst (u8_at c r)) = true.
 Proof.
-  intros. unfold u8_at. destruct (negb (is_high c)); [apply u8_code_sound|].
+  intros. unfold u8_at. destruct (is_low c); [reflexivity|].
+  destruct (negb (is_high c)); [apply u8_code_sound|].
   destruct r as [|lo r]; [reflexivity|].
   destruct (is_low lo); [apply u8_code_sound|reflexivity].
 Qed.
+
+(* ---- the generic loop over single-character writes ---- *)
+Lemma at_loop_sound_aux : forall kb (one : N -> list N -> list item * bool),
+  (forall c r, sound kb (fst (one c r))) ->
+  forall l, sound kb (at_loop one l) /\ forall c, sound kb (at_loop one (c :: l)).
+Proof.
+  intros kb one Hs. induction l as [|a l [IH1 IH2]].
+  - split; [reflexivity|]. intros c. cbn [at_loop].
+    pose proof (Hs c []) as H. destruct (one c []) as [its skip]. cbn [fst] in H.
+    apply sound_app; [exact H|]. destruct skip; reflexivity.
+  - split; [apply IH2|]. intros c. cbn [at_loop]. fold (at_loop one (a :: l)).
+    pose proof (Hs c (a :: l)) as H. destruct (one c (a :: l)) as [its skip]. cbn [fst] in H.
+    apply sound_app; [exact H|]. destruct skip; [apply IH1|apply IH2].
+Qed.
+
+Lemma at_loop_sound : forall kb (one : N -> list N -> list item * bool),
+  (forall c r, sound kb (fst (one c r))) -> forall l, sound kb (at_loop one l).
+Proof. intros kb one Hs l. apply (at_loop_sound_aux kb one Hs l). Qed.
 
 (* ---- UTF-16 ---- *)
 Lemma u16_unit_sound : forall c, forallb (item_sound kbuf_utf16) (u16_unit c) = true.
@@ -254,6 +275,17 @@ Proof. intros. apply unit_sound. exact unit_guard_utf16_ok. Qed.
 
 Lemma u16_block_sound : forall xs, forallb (item_sound kbuf_utf16) (u16_block xs) = true.
 Proof. intros. apply block_sound. Qed.
+
+Lemma u16_at_sound : forall c r, forallb (item_sound kbuf_utf16) (fst (u16_at c r)) = true.
+Proof.
+  intros. unfold u16_at. destruct (is_high c).
+  - destruct r as [|lo r]; [reflexivity|]. destruct (is_low lo); [|reflexivity].
+    cbn [fst]. apply sound_app; apply u16_unit_sound.
+  - destruct (is_low c); [reflexivity|]. apply u16_unit_sound.
+Qed.
+
+Lemma u16_chars_sound : forall l, forallb (item_sound kbuf_utf16) (u16_chars l) = true.
+Proof. intros. unfold u16_chars. apply at_loop_sound. apply u16_at_sound. Qed.
 
 (* ---- other encodings ---- *)
 Lemma digits_rev_length : forall fuel n, (length (digits_rev fuel n) <= fuel)%nat.
@@ -316,7 +348,8 @@ Section OtherSound.
     intros fail Hf c r. unfold o_at_gen. destruct (is_high c).
     - destruct r as [|lo r]; [reflexivity|]. destruct (is_low lo); [|reflexivity].
       cbn [fst]. destruct (rep _); [apply o_code_sound|apply Hf].
-    - cbn [fst]. destruct (rep c); [apply o_code_sound|apply Hf].
+    - destruct (is_low c); [reflexivity|].
+      cbn [fst]. destruct (rep c); [apply o_code_sound|apply Hf].
   Qed.
 
   Lemma o_at_sound : forall c r, forallb (item_sound kbuf_other) (fst (o_at rep c r)) = true.
@@ -325,20 +358,8 @@ Section OtherSound.
   Lemma o_at_name_sound : forall c r, forallb (item_sound kbuf_other) (fst (o_at_name rep c r)) = true.
   Proof. intros. apply o_at_gen_sound. reflexivity. Qed.
 
-  Lemma o_name_sound_aux : forall l,
-    sound kbuf_other (o_name rep l) /\ forall c, sound kbuf_other (o_name rep (c :: l)).
-  Proof.
-    induction l as [|a l [IH1 IH2]].
-    - split; [reflexivity|]. intros c. cbn [o_name].
-      pose proof (o_at_name_sound c []) as H. destruct (o_at_name rep c []) as [its skip].
-      cbn [fst] in H. apply sound_app; [exact H|]. destruct skip; reflexivity.
-    - split; [apply IH2|]. intros c. cbn [o_name]. fold (o_name rep (a :: l)).
-      pose proof (o_at_name_sound c (a :: l)) as H. destruct (o_at_name rep c (a :: l)) as [its skip].
-      cbn [fst] in H. apply sound_app; [exact H|]. destruct skip; [apply IH1|apply IH2].
-  Qed.
-
   Lemma o_name_sound : forall l, forallb (item_sound kbuf_other) (o_name rep l) = true.
-  Proof. intros. apply o_name_sound_aux. Qed.
+  Proof. intros. unfold o_name. apply at_loop_sound. apply o_at_name_sound. Qed.
 
   Lemma o_cdata_char_sound : forall open close c r outside,
     forallb (item_sound kbuf_other) (fst (fst (o_cdata_char rep open close c r outside))) = true.
@@ -475,9 +496,10 @@ Proof.
       exists []. split; [reflexivity|]. intros [|f] _; reflexivity. }
     cbn [length] in Hn. unfold units_ok in Hu. cbn [forallb] in Hu.
     apply andb_true_iff in Hu. destruct Hu as [Hu1 Hu2]. fold (units_ok r) in Hu2.
-    cbn [code_points] in Hc. cbn [u8_str]. rewrite is_high_eq.
+    cbn [code_points] in Hc. cbn [u8_str]. rewrite is_high_eq, (is_low_eq c).
     destruct ((55296 <=? c) && (c <=? 56319)) eqn:Eh; cbn [negb].
-    + destruct r as [|lo r']; [discriminate|].
+    + assert (Hl : (56320 <=? c) && (c <=? 57343) = false) by lia. rewrite Hl. clear Hl.
+      destruct r as [|lo r']; [discriminate|].
       rewrite is_low_eq.
       destruct ((56320 <=? lo) && (lo <=? 57343)) eqn:El; [|discriminate].
       destruct (code_points r') as [cps'|] eqn:Ec; [|discriminate].
@@ -528,21 +550,107 @@ Lemma utf8_roundtrip_needs_units_ok :
   code_points [1114112] = Some [1114112] /\ payload (u8_str [1114112]) = Thrown err_scalar.
 Proof. split; vm_compute; reflexivity. Qed.
 
-(* known finding K7: lone low surrogate written as a 3-byte sequence *)
-Theorem utf8_lone_low_refuted :
-  payload (u8_str [56832]) = Ok [237; 184; 128] /\ utf8_decode 4 [237; 184; 128] = None /\
-  code_points [56832] = None.
-Proof. repeat split; vm_compute; reflexivity. Qed.
+(* an unpaired low surrogate is an exception (the repaired library; was known finding K7) *)
+Theorem utf8_lone_low_throws : forall c r, is_low c = true ->
+  payload (u8_str (c :: r)) = Thrown err_surrogate.
+Proof. intros c r H. cbn [u8_str]. rewrite H. reflexivity. Qed.
+
+Lemma high_not_low : forall c, is_high c = true -> is_low c = false.
+Proof. intros c. rewrite is_high_eq, is_low_eq. lia. Qed.
 
 Theorem utf8_lone_high_throws : forall c, is_high c = true -> payload (u8_str [c]) = Thrown err_surrogate.
-Proof. intros c H. cbn [u8_str]. rewrite H. reflexivity. Qed.
+Proof. intros c H. cbn [u8_str]. rewrite (high_not_low c H), H. reflexivity. Qed.
 
+(* every string with an unpaired surrogate anywhere gives an exception, never bytes (no hypothesis
+   on the units is needed: a "unit" above 0x10FFFF throws as well) *)
+Lemma utf8_unpaired_gen : forall n s, (length s <= n)%nat -> code_points s = None ->
+  exists code, payload (u8_str s) = Thrown code.
+Proof.
+  induction n as [|n IH]; intros s Hn Hc.
+  - destruct s; [discriminate|cbn [length] in Hn; lia].
+  - destruct s as [|c r]; [discriminate|]. cbn [length] in Hn.
+    cbn [code_points] in Hc. cbn [u8_str]. rewrite is_high_eq, (is_low_eq c).
+    destruct ((55296 <=? c) && (c <=? 56319)) eqn:Eh; cbn [negb].
+    + assert (Hl : (56320 <=? c) && (c <=? 57343) = false) by lia. rewrite Hl. clear Hl.
+      destruct r as [|lo r']; [eexists; reflexivity|].
+      rewrite is_low_eq.
+      destruct ((56320 <=? lo) && (lo <=? 57343)) eqn:El; [|eexists; reflexivity].
+      destruct (code_points r') as [cps'|] eqn:Ec; [discriminate|].
+      destruct (IH r') as [code Hp]; [cbn [length] in Hn; lia|exact Ec|].
+      rewrite decode_pair_eq by lia.
+      set (cp := (c - 55296) * 1024 + (lo - 56320) + 65536).
+      assert (Hcp : cp <= 1114111) by (subst cp; lia).
+      exists code. rewrite payload_app, (u8_code_spec cp Hcp), Hp. reflexivity.
+    + destruct ((56320 <=? c) && (c <=? 57343)) eqn:El; [eexists; reflexivity|].
+      destruct (code_points r) as [cps'|] eqn:Ec; [discriminate|].
+      destruct (IH r) as [code Hp]; [lia|exact Ec|].
+      destruct (N.le_gt_cases c 1114111) as [Hcp|Hcp].
+      * exists code. rewrite payload_app, (u8_code_spec c Hcp), Hp. reflexivity.
+      * exists err_scalar. rewrite payload_app, (u8_code_too_big c Hcp). reflexivity.
+Qed.
+
+Theorem utf8_unpaired_is_an_error_strong : forall s, code_points s = None ->
+  exists code, payload (u8_str s) = Thrown code.
+Proof. intros s H. apply (utf8_unpaired_gen (length s) s (le_n _) H). Qed.
+
+Theorem utf8_unpaired_is_an_error : forall s, (forall c, In c s -> c < 65536) -> code_points s = None ->
+  exists code, payload (u8_str s) = Thrown code.
+Proof. intros s _. apply utf8_unpaired_is_an_error_strong. Qed.
+
+(* the UTF-16 writer: validating single-character writes *)
+Lemma u16_unpaired_gen : forall n s, (length s <= n)%nat -> code_points s = None ->
+  exists code, payload (at_loop u16_at s) = Thrown code.
+Proof.
+  induction n as [|n IH]; intros s Hn Hc.
+  - destruct s; [discriminate|cbn [length] in Hn; lia].
+  - destruct s as [|c r]; [discriminate|]. cbn [length] in Hn.
+    cbn [code_points] in Hc. cbn [at_loop]. unfold u16_at at 1. rewrite is_high_eq, (is_low_eq c).
+    destruct ((55296 <=? c) && (c <=? 56319)) eqn:Eh.
+    + destruct r as [|lo r']; [eexists; reflexivity|].
+      rewrite is_low_eq.
+      destruct ((56320 <=? lo) && (lo <=? 57343)) eqn:El; [|eexists; reflexivity].
+      destruct (code_points r') as [cps'|] eqn:Ec; [discriminate|].
+      destruct (IH r') as [code Hp]; [cbn [length] in Hn; lia|exact Ec|].
+      exists code. unfold u16_unit. cbn [app payload]. rewrite Hp. reflexivity.
+    + destruct ((56320 <=? c) && (c <=? 57343)) eqn:El; [eexists; reflexivity|].
+      destruct (code_points r) as [cps'|] eqn:Ec; [discriminate|].
+      destruct (IH r) as [code Hp]; [lia|exact Ec|].
+      exists code. unfold u16_unit. cbn [app payload]. rewrite Hp. reflexivity.
+Qed.
+
+Theorem u16_unpaired_is_an_error : forall s, code_points s = None ->
+  exists code, payload (u16_chars s) = Thrown code.
+Proof. intros s H. unfold u16_chars. apply (u16_unpaired_gen (length s) s (le_n _) H). Qed.
+
+Lemma u16_verbatim_gen : forall n s cps, (length s <= n)%nat -> code_points s = Some cps ->
+  payload (at_loop u16_at s) = Ok s.
+Proof.
+  induction n as [|n IH]; intros s cps Hn Hc.
+  - destruct s; [reflexivity|cbn [length] in Hn; lia].
+  - destruct s as [|c r]; [reflexivity|]. cbn [length] in Hn.
+    cbn [code_points] in Hc. cbn [at_loop]. unfold u16_at at 1. rewrite is_high_eq, (is_low_eq c).
+    destruct ((55296 <=? c) && (c <=? 56319)) eqn:Eh.
+    + destruct r as [|lo r']; [discriminate|].
+      rewrite is_low_eq.
+      destruct ((56320 <=? lo) && (lo <=? 57343)) eqn:El; [|discriminate].
+      destruct (code_points r') as [cps'|] eqn:Ec; [|discriminate].
+      assert (Hp : payload (at_loop u16_at r') = Ok r') by (apply (IH r' cps'); [cbn [length] in Hn; lia|exact Ec]).
+      unfold u16_unit. cbn [app payload]. rewrite Hp. reflexivity.
+    + destruct ((56320 <=? c) && (c <=? 57343)) eqn:El; [discriminate|].
+      destruct (code_points r) as [cps'|] eqn:Ec; [|discriminate].
+      assert (Hp : payload (at_loop u16_at r) = Ok r) by (apply (IH r cps'); [lia|exact Ec]).
+      unfold u16_unit. cbn [app payload]. rewrite Hp. reflexivity.
+Qed.
+
+Theorem u16_chars_verbatim : forall s cps, code_points s = Some cps -> payload (u16_chars s) = Ok s.
+Proof. intros s cps H. unfold u16_chars. apply (u16_verbatim_gen (length s) s cps (le_n _) H). Qed.
 (* ==== 3. the formatter produces sound items only ================================================== *)
 Record fam_sound (F : fam) : Prop := mk_fam_sound {
   fs_unit : forall c, sound (f_kbuf F) (f_unit F c);
   fs_const : forall l, sound (f_kbuf F) (f_const F l);
   fs_str : forall l, sound (f_kbuf F) (f_str F l);
   fs_name : forall l, sound (f_kbuf F) (f_name F l);
+  fs_comment : forall l, sound (f_kbuf F) (f_comment F l);
   fs_at : forall c r, sound (f_kbuf F) (fst (f_at F c r));
   fs_cdata_char : forall c r o, sound (f_kbuf F) (fst (fst (f_cdata_char F c r o)));
   fs_newline : sound (f_kbuf F) (f_newline F)
@@ -550,35 +658,40 @@ Record fam_sound (F : fam) : Prop := mk_fam_sound {
 
 Lemma fam_utf8_sound : fam_sound fam_utf8.
 Proof.
-  constructor; cbn [fam_utf8 f_kbuf f_unit f_const f_str f_name f_at f_cdata_char f_newline]; intros.
+  constructor; cbn [fam_utf8 f_kbuf f_unit f_const f_str f_name f_comment f_at f_cdata_char f_newline]; intros.
   - apply u8_unit_sound.
   - apply u8_block_sound.
   - apply u8_str_sound.
   - apply u8_str_sound.
+  - apply u8_str_sound.
   - apply u8_at_sound.
-  - pose proof (u8_at_sound c r) as H. destruct (u8_at c r). exact H.
+  - pose proof (u8_at_sound c r) as H. destruct (u8_at c r). cbn [fst] in *.
+    apply sound_app; [|exact H]. destruct o; [apply u8_block_sound|reflexivity].
   - apply u8_str_sound.
 Qed.
 
 Lemma fam_utf16_sound : fam_sound fam_utf16.
 Proof.
-  constructor; cbn [fam_utf16 f_kbuf f_unit f_const f_str f_name f_at f_cdata_char f_newline fst]; intros.
+  constructor; cbn [fam_utf16 f_kbuf f_unit f_const f_str f_name f_comment f_at f_cdata_char f_newline fst]; intros.
   - apply u16_unit_sound.
   - apply u16_block_sound.
   - apply u16_block_sound.
   - apply u16_block_sound.
-  - apply u16_unit_sound.
-  - apply u16_unit_sound.
+  - apply u16_chars_sound.
+  - apply u16_at_sound.
+  - pose proof (u16_at_sound c r) as H. destruct (u16_at c r). cbn [fst] in *.
+    apply sound_app; [|exact H]. destruct o; [apply u16_block_sound|reflexivity].
   - apply u16_block_sound.
 Qed.
 
 Lemma fam_other_sound : forall rep, fam_sound (fam_other rep).
 Proof.
   intros rep.
-  constructor; cbn [fam_other f_kbuf f_unit f_const f_str f_name f_at f_cdata_char f_newline]; intros.
+  constructor; cbn [fam_other f_kbuf f_unit f_const f_str f_name f_comment f_at f_cdata_char f_newline]; intros.
   - apply o_unit_sound.
   - apply o_str_sound.
   - apply o_str_sound.
+  - apply o_name_sound.
   - apply o_name_sound.
   - apply o_at_sound.
   - apply o_cdata_char_sound.
@@ -668,11 +781,13 @@ Section FormatterSound.
     destruct (negb (p_attribute v11 c)); cbn [fst]; [apply (fs_unit F HF)|apply default_attr_escape_sound].
   Qed.
 
-  Lemma normalized_step_sound : forall c r, sound kb (fst (normalized_step F v11 c r)).
+  Lemma normalized_loop_sound : forall l run_rev, sound kb (normalized_loop F v11 l run_rev).
   Proof.
-    intros. unfold normalized_step.
-    destruct (c =? 10); [apply (fs_newline F HF)|].
-    destruct (p_crforbidden v11 c); [reflexivity|apply (fs_at F HF)].
+    induction l as [|c r IH]; intros run_rev; cbn [normalized_loop].
+    - apply (fs_comment F HF).
+    - destruct (c =? 10).
+      + apply sound_app; [apply (fs_comment F HF)|]. apply sound_app; [apply (fs_newline F HF)|apply IH].
+      + destruct (p_crforbidden v11 c); [reflexivity|apply IH].
   Qed.
 
   Lemma write_content_sound : forall s, sound kb (write_content F v11 s).
@@ -682,13 +797,16 @@ Section FormatterSound.
   Proof. intros. apply char_loop_sound. apply attr_step_sound. Qed.
 
   Lemma write_normalized_data_sound : forall s, sound kb (write_normalized_data F v11 s).
-  Proof. intros. apply char_loop_sound. apply normalized_step_sound. Qed.
+  Proof. intros. unfold write_normalized_data. apply normalized_loop_sound. Qed.
 End FormatterSound.
 
 (* cdata_loop: the deferred part [plain] of the body, named *)
 Definition cdata_plain (F : fam) (v11 : bool) (c : N) (r : list N) (outside : bool) : list item * bool :=
   if c =? 10 then let '(its, o) := cdata_loop F v11 r outside in (f_newline F ++ its, o)
-  else if p_crforbidden v11 c then ([IThrow err_forbidden], outside)
+  else if p_forbidden v11 c then ([IThrow err_forbidden], outside)
+  else if (c =? 13) || (v11 && ((c =? 133) || (c =? 8232) || p_crforbidden v11 c)) then
+    let '(its, o) := cdata_loop F v11 r true in
+    ((if outside then [] else f_const F s_cdata_close) ++ ncr F c ++ its, o)
   else
     let '(its, skip, o1) := f_cdata_char F c r outside in
     let '(its2, o2) :=
@@ -728,7 +846,12 @@ Section FormatterSound2.
     destruct (c =? 10).
     { pose proof (IH r outside Hn) as H. destruct (cdata_loop F v11 r outside) as [its o].
       cbn [fst] in *. apply sound_app; [apply (fs_newline F HF)|exact H]. }
-    destruct (p_crforbidden v11 c); [reflexivity|].
+    destruct (p_forbidden v11 c); [reflexivity|].
+    destruct ((c =? 13) || (v11 && ((c =? 133) || (c =? 8232) || p_crforbidden v11 c))).
+    { pose proof (IH r true Hn) as H. destruct (cdata_loop F v11 r true) as [its o].
+      cbn [fst] in *.
+      apply sound_app; [destruct outside; [reflexivity|apply (fs_const F HF)]|].
+      apply sound_app; [apply ncr_sound; exact HF|exact H]. }
     pose proof (fs_cdata_char F HF c r outside) as H.
     destruct (f_cdata_char F c r outside) as [[its skip] o1]. cbn [fst] in H.
     destruct skip.
